@@ -1,7 +1,8 @@
 import GlmVerif.Spec.C10
-import GlmVerif.Gen.C10
-/-! table check of family `asgdiv_m` against the model generated from /repo (kernel evaluation) -/
+import GlmVerif.Gen.C10.asgdiv_m
+/-! table check of family `asgdiv_m` against the model of its units generated from /repo (kernel evaluation) -/
 namespace Glm.Props.C10
 open Glm Glm.Spec.C10 Glm.Gen.C10
-theorem asgdiv_m_ok : f_asgdiv_m.ok lookup = true := by decide +kernel
+set_option maxHeartbeats 4000000 in
+theorem asgdiv_m_ok : f_asgdiv_m.ok (fun _ ks => asgdiv_m_L ks) = true := by decide +kernel
 end Glm.Props.C10
